@@ -86,7 +86,7 @@ theorem consumer_progress (all : List Delivery) (hwf : ∀ d ∈ all, d.WF) (as 
     rcases hin : s.inbound with _ | ⟨a, _ | ⟨b, rest⟩⟩
     · rw [hin] at hlen; simp at hlen
     · rw [hin] at hlen; simp at hlen
-    · simp only [step, hidle, hin]
+    · simp only [step, stepN, hidle, hin]
       cases a <;> cases b <;> rfl
   · intro m n p acc hph hne
     rcases h with ⟨hidle, _⟩ | ⟨d, ds, k, hph', hrest, _, hwfd, _⟩
@@ -114,9 +114,9 @@ theorem consumer_progress (all : List Delivery) (hwf : ∀ d ∈ all, d.WF) (as 
               rcases pc with _ | ⟨x, xs⟩
               · exact absurd rfl hpcne
               · rfl
-            simp only [step, hph, hin, hc, if_true, hemp, Bool.false_eq_true, if_false, Option.isSome_some]
+            simp only [step, stepN, hph, hin, hc, if_true, hemp, Bool.false_eq_true, if_false, Option.isSome_some]
       · right
-        simp only [step, hph]
+        simp only [step, stepN, hph]
         rw [if_neg hc]; rfl
 
 /-- Why the returned-message content must be kept out of the delivery queue: if it were queued
@@ -125,6 +125,17 @@ theorem consumer_progress (all : List Delivery) (hwf : ∀ d ∈ all, d.WF) (as 
 theorem returned_content_in_queue_loses_a_delivery :
     (run { inbound := [.header 0 9, .deliver 2, .header 0 5] } [.start]).map (fun s => (s.dropped, s.inbound)) =
       some (1, [.header 0 5]) := by decide
+
+/-- the consuming thread does not touch the queue until both the Basic.Deliver and its header are there
+    (regenerated from the guard at the top of `_build_message`) -/
+theorem gen_start_guard : Gen.Loops.buildStartNeeds = 2 := by decide
+
+/-- why: were it content with one queued frame, a poll between the reads that bring the Basic.Deliver and its
+    header would pop the lone Deliver, fail on the second pop and lose it — the message is never delivered -/
+theorem weaker_start_guard_loses_a_delivery :
+    (runN 1 { future := [.deliver 1, .header 1 0, .body [7]] } [.append, .start, .append, .append, .start]).map
+      (fun s => (s.dropped, s.out, s.inbound)) = some (2, [], []) := by decide
+example : (run { future := [.deliver 1, .header 1 0, .body [7]] } [.append, .start]) = none := by decide
 
 /-! ## Tie obligations -/
 
